@@ -52,7 +52,7 @@ fn models(tier: Tier) -> Vec<(usize, Model)> {
             v.extend(gen::m7(0).into_iter().step_by(7).map(|m| (1, m)));
         }
         Tier::Thorough => {
-            v.extend(gen::m1(1).into_iter().map(|m| (0, m)));
+            v.extend(gen::m1(1).into_iter().step_by(2).map(|m| (0, m)));
             v.extend(gen::m2(1).into_iter().step_by(29).map(|m| (1, m)));
             v.extend(gen::m3(1).into_iter().step_by(5).map(|m| (1, m)));
             v.extend(gen::m5(1).into_iter().step_by(3).map(|m| (1, m)));
